@@ -11,8 +11,8 @@
     `threshold_binary`.  Undefined behaviour of the C++ (division by zero, histogram index outside
     [0,255]) is an explicit outcome (`Except`), so "no UB" is a theorem about the model.
     `trackMax := false` reproduces the pre-fix code (max never updated, no max == min guard).
-  * `morphAt` follows `morph_impl` (self always included, flipped kernel indices, `kernel.at(flip_row,
-    flip_col)` i.e. the table is read transposed, bounds test); `erodeN/dilateN` are the abstract
+  * `morphAt` follows `morph_impl` (self always included, flipped kernel indices, `kernel.at(flip_col, flip_row)`,
+    bounds test); `erodeN/dilateN` are the abstract
     min/max over a neighbourhood relation used by the lattice theorems.
   * `medianAt` follows `median_filter`: `extend_boundary(…, extend_constant)` (the C15 model), the k×k
     window, `nth_element` modelled by its specification (element k²/2 of the sorted window).
@@ -185,8 +185,8 @@ def morphAt (src : Int → Int → Int) (w h : Nat) (ker : List Int) (ks cy cx :
     (List.range ks).foldl (fun acc (kernel_col : Nat) =>
       let flip_ker_row : Int := (ks : Int) - 1 - (kernel_row : Int)
       let flip_ker_col : Int := (ks : Int) - 1 - (kernel_col : Int)
-      -- kernel.at(flip_ker_row, flip_ker_col): x = flip_ker_row, y = flip_ker_col
-      if ker.getD (flip_ker_col.toNat * ks + flip_ker_row.toNat) 0 = 0 then acc
+      -- kernel.at(flip_ker_col, flip_ker_row): x = column, y = row  (argument order fixed by f4ff363)
+      if ker.getD (flip_ker_row.toNat * ks + flip_ker_col.toNat) 0 = 0 then acc
       else
         let row_boundary : Int := (y : Int) + ((cy : Int) - flip_ker_row)
         let col_boundary : Int := (x : Int) + ((cx : Int) - flip_ker_col)
@@ -214,17 +214,10 @@ def opening (w h : Nat) (ker : List Int) (ks cy cx : Nat) (plane : List Int) : L
 def closing (w h : Nat) (ker : List Int) (ks cy cx : Nat) (plane : List Int) : List Int :=
   erode w h ker ks cy cx 1 (dilate w h ker ks cy cx 1 plane)
 
-/-- neighbourhood AS CODED: `morph_impl` calls `kernel.at(flip_ker_row, flip_ker_col)` although `at` takes (x, y) =
-    (column, row): the table entry in ROW c, COLUMN r selects the offset (dx, dy) = (cx − c, cy − r), i.e. the
-    structuring element is read transposed (known finding C16-morph-se-transposed) -/
+/-- neighbourhood of a structuring element: the entry in row r, column c selects the neighbour at horizontal offset
+    cx − c and vertical offset cy − r (rows are vertical, columns horizontal; the reflection is immaterial for a
+    symmetric structuring element).  Since fix f4ff363 this is also what `morph_impl` reads. -/
 def isNeighbour (ker : List Int) (ks cy cx : Nat) (px py qx qy : Int) : Bool :=
-  (List.range ks).any fun (r : Nat) => (List.range ks).any fun (c : Nat) =>
-    ker.getD (c * ks + r) 0 ≠ 0 && qx == px + ((cx : Int) - (c : Int)) && qy == py + ((cy : Int) - (r : Int))
-
-/-- Spec neighbourhood: the entry in row r, column c of the structuring element selects the neighbour at horizontal
-    offset cx − c and vertical offset cy − r (rows are vertical, columns horizontal; the reflection is immaterial for
-    a symmetric structuring element) -/
-def isNeighbourSpec (ker : List Int) (ks cy cx : Nat) (px py qx qy : Int) : Bool :=
   (List.range ks).any fun (r : Nat) => (List.range ks).any fun (c : Nat) =>
     ker.getD (r * ks + c) 0 ≠ 0 && qx == px + ((cx : Int) - (c : Int)) && qy == py + ((cy : Int) - (r : Int))
 
@@ -235,11 +228,6 @@ def pointSymmetric (ker : List Int) (ks cy cx : Nat) : Bool :=
       (decide (r ≤ 2 * cy) && decide (c ≤ 2 * cx) && decide (2 * cy - r < ks) && decide (2 * cx - c < ks)
         && ker.getD ((2 * cy - r) * ks + (2 * cx - c)) 0 != 0)
 
-/-- the non-zero pattern is invariant under transposition -/
-def transposeInvariant (ker : List Int) (ks : Nat) : Bool :=
-  (List.range ks).all fun (r : Nat) => (List.range ks).all fun (c : Nat) =>
-    (ker.getD (r * ks + c) 0 == 0) == (ker.getD (c * ks + r) 0 == 0)
-
 /-- Spec of one dilation / erosion step on a plane: max / min over {self} ∪ in-image Spec neighbours -/
 def morphSpec (w h : Nat) (ker : List Int) (ks cy cx : Nat) (dilation : Bool) (p : List Int) : List Int :=
   let pts := List.range (w * h)
@@ -247,7 +235,7 @@ def morphSpec (w h : Nat) (ker : List Int) (ks cy cx : Nat) (dilation : Bool) (p
     let px : Int := (i % w : Nat); let py : Int := (i / w : Nat)
     pts.foldl (fun acc (j : Nat) =>
       let qx : Int := (j % w : Nat); let qy : Int := (j / w : Nat)
-      if isNeighbourSpec ker ks cy cx px py qx qy then
+      if isNeighbour ker ks cy cx px py qx qy then
         (if dilation then max acc (p.getD j 0) else min acc (p.getD j 0)) else acc) (p.getD i 0)
 
 /-! abstract erosion / dilation over a list of points and a neighbourhood relation -/
